@@ -476,7 +476,7 @@ impl Property for C16 {
          compressed and uncompressed serialisations of 9 points, of pairing outputs, multi-pairing and miller-loop + final exponentiation must be \
          byte-identical; each engine checks bilinearity, e(aG1,bG2) = e(G1,G2)^(ab), non-degeneracy, e(G1,G2)^q = 1; serialised points (valid, and \
          corrupted: flag bits, bit flips, x >= p, truncation, zeros) are parsed by both engines, which must agree on the verdict and the point. \
-         Non-trivial: a, b not in {0,1} (exchange: corrupted or k not in {0,1}); distinct by digest"
+         Also byte-compared: tower-field arithmetic (Frobenius powers 0..13, inverse, square, pow, Legendre) on arbitrary, sparse, Miller-loop and pairing values of Fp12 and on Fp2; multiplication by multi-limb integers, multiples of the order and the cofactors in projective and affine form on subgroup points and on curve points outside the subgroups; MSM with identity bases and zero scalars; reduction of 0..160-byte strings into both fields; zeroize. Non-trivial: a, b not in {0,1} (exchange: corrupted or k not in {0,1}); distinct by digest"
             .into()
     }
     fn assumptions(&self) -> Vec<String> {
